@@ -519,6 +519,72 @@ def rule_r8(ck, prog, rule='C06.R8'):
                'MetricCollector::GetAggregationTemporality writes %s: the answer for one instrument type is remembered and served for every other type' % path_str(wr[1]))
 
 
+def rule_r9(ck, prog, rule='C06.R9'):
+    """folding several intervals into one map accumulates: every callback of buildMetrics that stores into a captured
+    AttributesHashMap under the callback's own attribute set first looks that set up in the same map, stores a value built from the
+    found aggregation when there is one, and stores a fresh one only on the not-found edge - otherwise a later interval overwrites
+    an earlier one for the same attribute set (a reader that collects less often than another loses measurements)"""
+    f = prog.function('sdk::metrics::TemporalMetricStorage::buildMetrics')
+    lams = [x for x in prog.funcs.values() if x.d.get('lambda') and x.d.get('parent') == f.key]
+    cnt = 0
+    for lf in sorted(lams, key=lambda x: x.line):
+        sets = [n for n in lf.nodes if n['k'] == 'call' and strip_targs(n.get('c', '')).endswith('::Set') and 'AttributesHashMap' in strip_targs(n.get('c', '')) and n.get('obj') is not None]
+        if not sets or not lf.params:
+            continue
+        attr = lf.params[0]
+
+        def capname(idx):
+            for i in list(lf.subtree(idx)) + [idx]:
+                m = lf.nodes[i]
+                if m['k'] == 'ref' and (m.get('cap') or m.get('sk') in ('capture',)):
+                    return m.get('name')
+            return None
+        g = Graph(prog, lf, inline=None, sync_lambdas=False)
+        for sn in sets:
+            mname = capname(sn['obj'])
+            if mname is None or not (sn.get('args') and strip_casts(lf, sn['args'][0]).get('id') == attr['id']):
+                continue
+            cnt += 1
+            gets = [n for n in lf.nodes if n['k'] == 'call' and strip_targs(n.get('c', '')).endswith('::Get') and 'AttributesHashMap' in strip_targs(n.get('c', '')) and
+                    n.get('obj') is not None and capname(n['obj']) == mname and n.get('args') and strip_casts(lf, n['args'][0]).get('id') == attr['id']]
+            site = 'fold-accumulates@line-offset-%d' % (sn['i'])
+            site = 'fold-accumulates:%s#%d' % (mname, sum(1 for x in sets if x['i'] <= sn['i']))
+            if not gets:
+                ck.violation(rule, lf, site, sn, 'the callback stores into %s under the entry\'s attribute set without looking up what %s already holds for it: when several intervals (or the previous total) are folded, the later one replaces the earlier one instead of being merged' % (mname, mname))
+                continue
+            found = {d['id'] for n in lf.nodes if n['k'] == 'declstmt' for d in n['decls'] if d.get('init') is not None and any(gn['i'] in list(lf.subtree(d['init'])) + [d['init']] for gn in gets)}
+
+            def uses_found(idx):
+                return any(lf.nodes[i]['k'] == 'ref' and lf.nodes[i].get('id') in found for i in subtree_through_locals(lf, idx)) or \
+                    any(gn['i'] in list(lf.subtree(idx)) for gn in gets)
+
+            def null_edge(a, b, lab):
+                if not lab or not isinstance(lab[0], int):
+                    return False
+                core, pol = norm_cond(lab[1], lab[0])
+                cn = strip_casts(lab[1], core)
+                c = comparison(lab[1], core)
+                if c and c[0] in ('==', '!='):
+                    l, r = strip_casts(lab[1], c[1]), strip_casts(lab[1], c[2])
+                    for x, y in ((l, r), (r, l)):
+                        if x['k'] == 'ref' and x.get('id') in found and (y.get('null') or y.get('v') == 0):
+                            return (lab[2] if pol else not lab[2]) is (c[0] == '==')
+                    return False
+                if cn['k'] == 'ref' and cn.get('id') in found:
+                    return (lab[2] if pol else not lab[2]) is False
+                return False
+            sp = g.point_of.get((id(g.root_ctx), sn['i']))
+            val = sn['args'][1] if len(sn['args']) > 1 else None
+            if val is not None and uses_found(val):
+                ck.holds(rule, lf, site, sn, 'the stored value is built from the aggregation found for the same attribute set')
+            else:
+                ok = sp is not None and bool(found) and g.must_pass_edge(sp, null_edge)
+                ck.verdict(ok, rule, lf, site, sn, 'a fresh aggregation is stored only when the map holds nothing for the attribute set' if ok else
+                           'a value that does not include what %s already holds for the attribute set is stored although an entry may exist: the earlier contribution is overwritten' % mname)
+    if cnt < 2:
+        raise AnalysisBroken('C06.R9: fewer than two folding callbacks found in buildMetrics')
+
+
 def run(ck, prog):
     ck.doc('C06.R1', 'lock-field association: table + Aggregate under the table lock; stashes under their lock; sum point under its lock', 10)
     ck.doc('C06.R2', 'every Add/Record overload forwards value/attributes/context to the matching storage call; multi storage to all', 20)
@@ -527,6 +593,7 @@ def run(ck, prog):
     ck.doc('C06.R5', 'registry writes in the per-view callback use a view-dependent key', 2)
     ck.doc('C06.R6', 'Sum Merge = this + delta, Diff = next - this', 4)
     ck.doc('C06.R7', 'collection fan-in: every meter and every storage is visited; iteration callbacks never ask to stop', 3)
+    ck.doc('C06.R9', 'folding intervals accumulates: stores into the merged map look the attribute set up first and overwrite only with a value built from the found aggregation', 2)
     ck.doc('C06.R8', 'a collector answers with the reader\'s temporality for this instrument type on this call (asked on every path, no cached state)', 2)
     ck.doc('C08.R2', '(shared rule, see C08) every constructor / mutation of the series key ends in UpdateHash()', 5)
     ck.doc('C08.R4', '(shared rule, see C08) overflow guard arithmetic; lookup miss -> overflow test -> insertion in every GetOrSetDefault', 5)
@@ -542,6 +609,7 @@ def run(ck, prog):
     rule_r6(ck, prog)
     rule_r7(ck, prog)
     rule_r8(ck, prog)
+    rule_r9(ck, prog)
     from . import c08
     c08.rule_r4(ck, prog)
     c08.rule_r2(ck, prog)
